@@ -718,8 +718,12 @@ def run(ctx, lean_ok):
         sim = None
         for attempt in range(3):
             try:
-                sim = S.simulate(sc, maxit=ctx.n(1, 2), delta_z=ctx.n(6., 3.))
+                sim = S.simulate(sc, maxit=ctx.n(1, 2), delta_z=ctx.n(6., 3.), time_limit=ctx.n(90., 400.))
                 nsim_ok += 1
+                break
+            except S.SimulationTimeout:
+                # the simulation is only a source of states: fall back to the initial state of smp.main_ic
+                ctx.count('scenario-simulation-timed-out')
                 break
             except Exception as e:       # a scenario the real model cannot integrate (C20's subject): draw another
                 ctx.count('scenario-simulation-failed:%s' % raise_site(e))
